@@ -17,16 +17,18 @@ import (
 // C11 — every advertised encryption method round-trips exactly, on both key APIs.
 
 type C11Case struct {
-	Enc       h.EncSpec  `json:"enc"`
-	Plain     []byte     `json:"plain"`
-	KeyMode   string     `json:"keyMode"` // tls | custom | setter | both
-	EAXML     string     `json:"eaXML"`   // serialised EncryptedAssertion element
-	Twin      bool       `json:"twin"`    // also run the encrypted-vs-plaintext twin differential
-	TwinEnc   string     `json:"twinEnc"`
-	TwinRaw   string     `json:"twinRaw"`
-	Placement string     `json:"placement"`
-	InheritNS bool       `json:"inheritNS,omitempty"` // the twin's encrypted plaintext relies on namespace declarations of the Response
-	Enc2      *h.EncSpec `json:"enc2,omitempty"`      // second, independently drawn encryption for the twin\'s second assertion
+	Enc        h.EncSpec  `json:"enc"`
+	Plain      []byte     `json:"plain"`
+	KeyMode    string     `json:"keyMode"` // tls | custom | setter | both
+	EAXML      string     `json:"eaXML"`   // serialised EncryptedAssertion element
+	Twin       bool       `json:"twin"`    // also run the encrypted-vs-plaintext twin differential
+	TwinEnc    string     `json:"twinEnc"`
+	TwinRaw    string     `json:"twinRaw"`
+	Placement  string     `json:"placement"`
+	InheritNS  bool       `json:"inheritNS,omitempty"`
+	PlainFirst bool       `json:"plainFirst,omitempty"` // twin: the FIRST assertion stays in clear, the second one is encrypted (Enc)
+	Pretty     bool       `json:"pretty,omitempty"`     // twin: white space between the children of the Response (applied before signing) // the twin's encrypted plaintext relies on namespace declarations of the Response
+	Enc2       *h.EncSpec `json:"enc2,omitempty"`       // second, independently drawn encryption for the twin\'s second assertion
 }
 
 func keyCfg(mode string) h.KeyCfg { return keyCfgW(mode, "wide") }
@@ -86,6 +88,8 @@ func genC11(t *rapid.T) C11Case {
 	c.Twin = rapid.IntRange(0, 2).Draw(t, "twin") == 0
 	c.Placement = rapid.SampledFrom([]string{"response", "assertions", "both"}).Draw(t, "placement")
 	c.InheritNS = c.Twin && rapid.IntRange(0, 2).Draw(t, "inheritNS") == 0
+	c.PlainFirst = c.Twin && rapid.IntRange(0, 2).Draw(t, "plainFirst") == 0
+	c.Pretty = c.Twin && rapid.Bool().Draw(t, "pretty")
 	if c.Twin && rapid.Bool().Draw(t, "secondEncrypted") {
 		c.Enc2 = h.GenEncSpec(to).Draw(t, "enc2")
 	}
@@ -106,6 +110,9 @@ func (c *C11Case) build() error {
 		sp := h.BaseSP()
 		sp.Enc = keyCfgK(c.KeyMode, c.Enc.To.Key, c.Enc.To.Window)
 		g := gridGenuine(sp, 2, c.Placement)
+		if c.Pretty {
+			g.NS.Pretty = 1
+		}
 		_, raw, _, err := g.Render()
 		if err != nil {
 			return err
@@ -114,6 +121,12 @@ func (c *C11Case) build() error {
 		e := c.Enc
 		g2 := gridGenuine(sp, 2, c.Placement)
 		g2.Enc = []*h.EncSpec{&e, c.Enc2}
+		if c.PlainFirst {
+			g2.Enc = []*h.EncSpec{nil, &e}
+		}
+		if c.Pretty {
+			g2.NS.Pretty = 1
+		}
 		g2.InheritNS = c.InheritNS
 		_, enc, _, err := g2.Render()
 		if err != nil {
@@ -129,7 +142,7 @@ func checkC11(c C11Case) h.Outcome {
 	fixtureCombo := (c.Enc.DataAlg == types.MethodAES128CBC || c.Enc.DataAlg == types.MethodAES256CBC) && c.Enc.Transport == types.MethodRSAOAEP && c.Enc.Digest == "-" && !c.Enc.Detached && c.KeyMode == "tls"
 	o.NonTrivial = !fixtureCombo
 	o.Classes = []string{"alg:" + shortAlg(c.Enc.DataAlg), "transport:" + shortAlg(c.Enc.Transport), "digest:" + shortAlg(c.Enc.Digest), fmt.Sprintf("detached:%v", c.Enc.Detached),
-		fmt.Sprintf("recipient:%v", c.Enc.Recipient != nil), "key:" + c.KeyMode, fmt.Sprintf("len%%16:%d", len(c.Plain)%16), fmt.Sprintf("twin:%v", c.Twin), fmt.Sprintf("twoEncrypted:%v", c.Enc2 != nil), fmt.Sprintf("inheritNS:%v", c.InheritNS), "spkey:" + c.Enc.To.Key}
+		fmt.Sprintf("recipient:%v", c.Enc.Recipient != nil), "key:" + c.KeyMode, fmt.Sprintf("len%%16:%d", len(c.Plain)%16), fmt.Sprintf("twin:%v", c.Twin), fmt.Sprintf("twoEncrypted:%v", c.Enc2 != nil), fmt.Sprintf("inheritNS:%v", c.InheritNS), fmt.Sprintf("plainFirst:%v", c.PlainFirst), fmt.Sprintf("pretty:%v", c.Pretty), "spkey:" + c.Enc.To.Key}
 	if n := len(c.Plain); n > 0 && c.Plain[n-1] == 0 {
 		o.Classes = append(o.Classes, "plain-ends-in-zero")
 	}
@@ -279,7 +292,7 @@ func TestC11_Grid(t *testing.T) {
 								r := e.To
 								e.Recipient = &r
 							}
-							c := C11Case{Enc: e, Plain: plain, KeyMode: mode, Twin: i%4 == 0, InheritNS: i%8 == 0, Placement: []string{"response", "assertions", "both"}[i%3]}
+							c := C11Case{Enc: e, Plain: plain, KeyMode: mode, Twin: i%4 == 0, InheritNS: i%8 == 0, PlainFirst: i%12 == 0, Pretty: i%8 == 4 || i%12 == 0, Placement: []string{"response", "assertions", "both"}[i%3]}
 							if c.Twin && i%8 == 0 {
 								// second assertion: the opposite key placement and another digest choice
 								e2 := e
